@@ -430,3 +430,49 @@ pub fn non_adjacent_form(s: &Scalar, w: usize) -> [i8; 256] {
 pub fn bits_le(s: &Scalar) -> Vec<bool> {
     s.bits_le().collect()
 }
+
+// ------------------------------------------------------------------------------------------
+// H1: precomputed tables (serial representations)
+// ------------------------------------------------------------------------------------------
+
+/// The 32 x 8 entries of `ED25519_BASEPOINT_TABLE` as `(y+x, y-x, 2dxy)`; entry `8*i + (j-1)`
+/// is documented to be `j * 256^i * B`.
+#[cfg(feature = "precomputed-tables")]
+pub fn basepoint_table_entries() -> Vec<[Fe; 3]> {
+    let t = crate::constants::ED25519_BASEPOINT_TABLE;
+    let mut v = Vec::new();
+    for i in 0..32 {
+        for j in 0..8 {
+            let e = &t.0[i].0[j];
+            v.push([Fe(e.y_plus_x), Fe(e.y_minus_x), Fe(e.xy2d)]);
+        }
+    }
+    v
+}
+
+/// The 64 entries of `AFFINE_ODD_MULTIPLES_OF_BASEPOINT`; entry `i` is documented to be
+/// `(2i+1) * B`.
+#[cfg(feature = "precomputed-tables")]
+pub fn affine_odd_multiples_entries() -> Vec<[Fe; 3]> {
+    let t = &crate::constants::AFFINE_ODD_MULTIPLES_OF_BASEPOINT;
+    t.0.iter().map(|e| [Fe(e.y_plus_x), Fe(e.y_minus_x), Fe(e.xy2d)]).collect()
+}
+
+/// The entries of `RISTRETTO_BASEPOINT_TABLE` (a transmuted view of the Edwards table).
+#[cfg(feature = "precomputed-tables")]
+pub fn ristretto_basepoint_table_entries() -> Vec<[Fe; 3]> {
+    let t = &crate::constants::RISTRETTO_BASEPOINT_TABLE.0;
+    let mut v = Vec::new();
+    for i in 0..32 {
+        for j in 0..8 {
+            let e = &t.0[i].0[j];
+            v.push([Fe(e.y_plus_x), Fe(e.y_minus_x), Fe(e.xy2d)]);
+        }
+    }
+    v
+}
+
+/// The private copy of the group order.
+pub fn basepoint_order_private() -> Scalar {
+    crate::constants::BASEPOINT_ORDER_PRIVATE
+}
